@@ -154,6 +154,27 @@ theorem abi3Applies_eq (ver : List Nat) (given : List Str) (hv : ver.length = 1 
   | [], h => simp at h
   | _ :: _ :: _ :: _, h => simp at h
 
+theorem tupLt_pair (x y a b : Nat) :
+    tupLt [x, y] [a, b] = !(decide (x > a) || (x == a && decide (y ≥ b))) := by
+  simp only [tupLt]
+  rcases Nat.lt_trichotomy x a with hx | hx | hx
+  · have h1 : (x == a) = false := by simp; omega
+    have h2 : ¬ (x > a) := by omega
+    simp [h1, h2, hx]
+  · subst hx
+    rcases Nat.lt_trichotomy y b with hy | hy | hy
+    · have h1 : (y == b) = false := by simp; omega
+      have h2 : ¬ (b ≤ y) := by omega
+      simp [h1, h2, hy]
+    · subst hy; simp
+    · have h1 : (y == b) = false := by simp; omega
+      have h2 : (b ≤ y) := by omega
+      have h3 : ¬ (y < b) := by omega
+      simp [h1, h2, h3]
+  · have h1 : (x == a) = false := by simp; omega
+    have h2 : ¬ (x < a) := by omega
+    simp [h1, h2, hx]
+
 /-! ### lower-casing -/
 
 theorem lowerStr_eq_self (s : Str) (h : ∀ c ∈ s, isUpperAscii c = false) : lowerStr s = s := by
